@@ -12,7 +12,7 @@ let ei k = EInt (z_of_int k)
 type guess = GInt | GBool | GAny
 
 let guess = function
-  | EInt _ | ENeg _ | EBNot _ | EPrint _ | EWhile _ | EDoWhile _ | EFor _ | EIf _ -> GInt
+  | EInt _ | ENeg _ | EBNot _ | EPrint _ | EWhile _ | EDoWhile _ | EFor _ | EForInRange _ | EForInArr _ | EIf _ -> GInt
   | EBool _ | ENot _ -> GBool
   | EBin (op, _, _) ->
     (match op with
@@ -67,6 +67,11 @@ let rec expr (e : expr) : expr list =
       List.map (fun x -> ECond (x, b, c)) (expr a) @ List.map (fun x -> ECond (a, x, c)) (expr b)
       @ List.map (fun x -> ECond (a, b, x)) (expr c)
     | EFor (a, b, c, d) -> List.map (fun x -> EFor (a, b, c, x)) (expr d)
+    | EForInRange (v, a, b, d) ->
+      List.map (fun x -> EForInRange (v, x, b, d)) (expr a) @ List.map (fun x -> EForInRange (v, a, x, d)) (expr b)
+      @ List.map (fun x -> EForInRange (v, a, b, x)) (expr d)
+    | EForInArr (v, a, d) ->
+      List.map (fun x -> EForInArr (v, x, d)) (expr a) @ List.map (fun x -> EForInArr (v, a, x)) (expr d)
     | ECall (f, args) -> List.map (fun x -> ECall (x, args)) (expr f) @ List.map (fun l -> ECall (f, l)) (in_list expr args)
     | EArrLit (es, t) -> List.map (fun l -> EArrLit (l, t)) (in_list expr es)
     | ERecNew (r, es) -> List.map (fun l -> ERecNew (r, l)) (in_list expr es)
